@@ -831,3 +831,157 @@ Proof.
         congruence. }
       apply qres_eqb_eq in Hag2. rewrite <- Hag2 in Hvoc. simpl in Hvoc. contradiction.
 Qed.
+
+(* ------------------------------------------------------------------ model_holds for get_job *)
+Lemma innermost_some : forall rc i rb, innermost_id rc = Some (i, rb) ->
+  exists rpost, rc = rpost ++ i :: rb /\ is_id i = true /\ forallb (fun c => negb (is_id c)) rpost = true.
+Proof.
+  induction rc as [|c rc IH]; simpl; intros i rb H; [discriminate|].
+  destruct (is_id c) eqn:E.
+  - inversion H; subst. exists []. auto.
+  - destruct (IH i rb H) as [rp [A [B C]]]. exists (c :: rp). subst rc. simpl. rewrite E, C. auto.
+Qed.
+
+Lemma innermost_none : forall rc, innermost_id rc = None -> forallb (fun c => negb (is_id c)) rc = true.
+Proof.
+  induction rc as [|c rc IH]; simpl; intro H; [reflexivity|].
+  destruct (is_id c); [discriminate|]. simpl. auto.
+Qed.
+
+Lemma optpath_eqb_refl : forall a, optpath_eqb a a = true.
+Proof. destruct a; simpl; auto. apply (list_eqb_eq _ str_eqb str_eqb_eq). reflexivity. Qed.
+
+Lemma project_open_not_lookup : forall root cwd p root', cfg_at root cwd p = true ->
+  project_open root cwd p = (Err ELookupError, root') -> False.
+Proof.
+  intros root cwd p root' C G. unfold project_open in G. unfold cfg_at in C. rewrite C in G.
+  destruct (read_cfg root cwd (cfgfn cwd p)); try discriminate.
+  destruct (Z.eqb (declared_version c) SCHEMA); [|discriminate].
+  destruct (os_isdir root cwd (path_join (abspath cwd p) s_workspace)); [discriminate|].
+  destruct (mkdirs root [] (split_sl (path_join (abspath cwd p) s_workspace))) as [[u|e2] r3] eqn:M; [discriminate|].
+  inversion G; subst. clear - M. revert M.
+  generalize (split_sl (path_join (abspath cwd p) s_workspace)) (@nil str). generalize root at 1 as rt.
+  intros rt l. revert rt. induction l as [|c l IH]; intros rt rc M; simpl in M; [discriminate|].
+  destruct (str_eqb c []); [eauto|].
+  destruct (get rt (rev rc)) as [[x|es|t]|]; try discriminate.
+  destruct (alookup c es) as [[x|es2|t]|]; try discriminate; eauto.
+  destruct (walk FUEL rt rc [c]) as [ph|]; [|discriminate].
+  destruct (get rt ph) as [[x|es3|t3]|]; try discriminate. eauto.
+Qed.
+
+Lemma os_exists_abs_of : forall root cwd comps, forallb cleanb comps = true ->
+  os_exists root cwd (abs_of comps) = exists_at root comps.
+Proof.
+  intros root cwd comps H. unfold os_exists, os_stat, exists_at.
+  destruct comps as [|c cs].
+  - unfold os_resolve, phys. simpl. rewrite walk_root_slash, walk_root_empty. destruct (get root []); reflexivity.
+  - rewrite os_resolve_abs_of by (auto; discriminate).
+    destruct (phys root (c :: cs)) as [ph|]; [|reflexivity]. destruct (get root ph); reflexivity.
+Qed.
+
+Lemma forallb_norun : forall l, forallb (fun c => negb (has_run c) || is_id c) l = true ->
+  forallb (fun c => negb (is_id c)) l = true -> forall c, In c l -> has_run c = false.
+Proof.
+  induction l as [|x l IH]; simpl; intros A B c I; [contradiction|].
+  apply andb_true_iff in A. destruct A as [A1 A2]. apply andb_true_iff in B. destruct B as [B1 B2].
+  destruct I as [E|I]; [subst x|auto].
+  apply negb_true_iff in B1. rewrite B1, orb_false_r in A1. apply negb_true_iff in A1. exact A1.
+Qed.
+
+Definition job_vocabulary (r : qres) : Prop :=
+  match r with RJob _ _ => True | RErr ELookupError => True | _ => False end.
+
+(* get_job: if the implementation agrees with the model on a query satisfying the precondition and
+   answers with a job or LookupError, then the oracle holds: the job is the innermost id-like
+   component of the path, its project is the nearest enclosing project of the job directory's
+   parent, that parent IS <project>/workspace physically, and LookupError is raised only when the
+   path does not exist or contains no id-like component / no project. *)
+Lemma model_holds_job : forall base tree q,
+  q_kind q = QJob -> pre_q base tree q = true -> agree_q base tree q = true ->
+  job_vocabulary (q_res q) -> holds_q base tree q = true.
+Proof.
+  intros base tree q K Hpre Hag Hvoc. unfold holds_q. rewrite Hpre.
+  set (root := mkroot base tree) in *.
+  unfold pre_q in Hpre. fold root in Hpre. rewrite K in Hpre.
+  apply andb_true_iff in Hpre. destruct Hpre as [Hpre JL].
+  repeat (apply andb_true_iff in Hpre; destruct Hpre as [Hpre ?]).
+  match goal with H : regular root q = true |- _ => rename H into Hr end.
+  unfold regular in Hr. repeat (apply andb_true_iff in Hr; destruct Hr as [Hr ?]).
+  match goal with H : forallb cleanb _ = true |- _ => rename H into Hclean end.
+  match goal with H : str_eqb (abspath _ _) _ = true |- _ => apply str_eqb_eq in H; rename H into Habs end.
+  set (comps := q_comps q) in *. set (cwd := q_cwd q) in *. set (path := q_path q) in *.
+  unfold job_layout in JL. apply andb_true_iff in JL. destruct JL as [JL1 JL2].
+  pose proof (os_exists_abs_of root cwd comps Hclean) as EX.
+  unfold agree_q in Hag. fold root in Hag. unfold run_q in Hag. rewrite K in Hag. fold cwd path in Hag.
+  assert (Q : q_res q = match get_job root cwd path with (Ok (r, i), _) => RJob r i | (Err e, _) => RErr e end).
+  { destruct (get_job root cwd path) as [[[r i]|e] root']; repeat (apply andb_true_iff in Hag; destruct Hag as [Hag ?]);
+      apply qres_eqb_eq in Hag; auto. }
+  clear Hag.
+  unfold expected, holder_ok. rewrite K. fold comps. fold root. fold (exists_at root comps).
+  destruct (exists_at root comps) eqn:EA.
+  2:{ (* the path does not exist *)
+      assert (G : get_job root cwd path = (Err ELookupError, root)).
+      { apply get_job_missing. rewrite Habs, EX. reflexivity. }
+      rewrite G in Q. rewrite Q. reflexivity. }
+  simpl in JL2.
+  destruct (innermost_id (rev comps)) as [[i rb]|] eqn:IN.
+  2:{ (* no id-like component *)
+      pose proof (innermost_none _ IN) as NI. rewrite forallb_rev in NI.
+      assert (G : get_job root cwd path = (Err ELookupError, root)).
+      { destruct comps as [|c0 cs0] eqn:EC.
+        - unfold get_job. rewrite Habs. destruct (negb (os_exists root cwd (abs_of []))); reflexivity.
+        - apply (get_job_no_id root cwd path (c0 :: cs0)).
+          + rewrite Habs. apply abs_of_segs. discriminate.
+          + apply forallb_norun; assumption. }
+      rewrite G in Q. rewrite Q. reflexivity. }
+  destruct rb as [|w rproj]; [discriminate|].
+  repeat (apply andb_true_iff in JL2; destruct JL2 as [JL2 ?]).
+  match goal with H : os_exists _ _ _ = true |- _ => rename H into PX end.
+  match goal with H : negb (has_cfg _ _) = true |- _ => apply negb_true_iff in H; rename H into NC end.
+  match goal with H : has_cfg root (rev rproj) = true |- _ => rename H into HC end.
+  apply str_eqb_eq in JL2. subst w.
+  destruct (phys root (rev (s_workspace :: rproj))) as [ph0|] eqn:PH; [|discriminate].
+  destruct (innermost_some _ _ _ IN) as [rpost [RC [Hi NP]]].
+  assert (EC : comps = rev (s_workspace :: rproj) ++ i :: rev rpost).
+  { apply (f_equal (@rev str)) in RC. rewrite rev_involutive in RC. rewrite RC.
+    rewrite rev_app_distr. simpl. rewrite <- app_assoc. reflexivity. }
+  set (pre := rev (s_workspace :: rproj)) in *.
+  assert (Cpre : forallb cleanb pre = true /\ cleanb i = true).
+  { rewrite EC in Hclean. rewrite forallb_app in Hclean. apply andb_true_iff in Hclean. destruct Hclean as [A B].
+    simpl in B. apply andb_true_iff in B. tauto. }
+  destruct Cpre as [Cpre Ci].
+  assert (NR : forall c, In c (rev rpost) -> has_run c = false).
+  { apply forallb_norun.
+    - rewrite EC in JL1. rewrite forallb_app in JL1. apply andb_true_iff in JL1. destruct JL1 as [_ B].
+      simpl in B. apply andb_true_iff in B. tauto.
+    - rewrite forallb_rev. exact NP. }
+  assert (SG : abspath cwd path = segs (pre ++ i :: rev rpost)).
+  { rewrite Habs, EC. apply abs_of_segs. destruct pre; discriminate. }
+  assert (XA : os_exists root cwd (abspath cwd path) = true) by (rewrite Habs, EX; exact EA).
+  rewrite (get_job_innermost root cwd path pre i (rev rpost) SG Hi NR XA) in Q.
+  assert (SJ : segs (pre ++ [i]) = abs_of (pre ++ [i])) by (symmetry; apply abs_of_segs; destruct pre; discriminate).
+  rewrite SJ in Q.
+  (* the project search from /pre/i/.. *)
+  assert (NE : nearest root (s_workspace :: rproj) = Some (rev rproj)).
+  { simpl nearest. change (rev rproj ++ [s_workspace]) with (rev (s_workspace :: rproj)). rewrite NC.
+    apply nearest_has_cfg_here. exact HC. }
+  assert (Crp : forallb cleanb (s_workspace :: rproj) = true) by (rewrite <- forallb_rev; exact Cpre).
+  pose proof (nearest_sound root cwd _ _ Crp NE) as NS. fold pre in NS.
+  assert (GP : get_project root cwd (path_join (abs_of (pre ++ [i])) s_pardir) true
+               = project_open root cwd (abs_of (rev rproj))).
+  { unfold get_project. rewrite PX. simpl negb. simpl andb. cbv iota.
+    rewrite (locate_of_nearest root cwd _ (abs_of (rev rproj))); [reflexivity|].
+    unfold s_pardir. rewrite (abspath_pardir cwd pre i Cpre Ci). exact NS. }
+  rewrite GP in Q.
+  assert (Crr : forallb cleanb (rev rproj) = true).
+  { rewrite forallb_rev. simpl in Crp. apply andb_true_iff in Crp. tauto. }
+  destruct (project_open root cwd (abs_of (rev rproj))) as [[x|e] root'] eqn:PO.
+  - apply project_open_Ok in PO. destruct PO as [Ex _]. rewrite (abspath_abs_of cwd _ Crr) in Ex. subst x.
+    rewrite Q, NE. rewrite qres_eqb_refl. simpl andb.
+    rewrite PH. rewrite (norm_split_abs_of _ Crr).
+    change (rev rproj ++ [s_workspace]) with (rev (s_workspace :: rproj)). fold pre. rewrite PH.
+    rewrite optpath_eqb_refl. reflexivity.
+  - rewrite Q in Hvoc. simpl in Hvoc. destruct e; try contradiction.
+    exfalso. eapply project_open_not_lookup; [|exact PO].
+    rewrite cfg_at_has_cfg by exact Crr. exact HC.
+Qed.
